@@ -11,7 +11,8 @@
              _encode (all, type)  -> _strop_by_keyword (all, type) -> _strop_by_pattern (all, type)
              -> dry-run pattern check [handler] -> dry-run keyword check [handler]
              -> dry-run encoding check [encoding handler]
-   A handler's result is NOT re-verified by the step that invoked it (as in the code). *)
+   A handler's result is NOT re-verified by the step that invoked it (as in the code); trees that carry the fix
+   re-verify the final token once more before returning it (sc_reverify). *)
 From Verif Require Export Regex.
 Open Scope N_scope.
 
@@ -34,7 +35,10 @@ Record strop_cfg := {
   sc_ws_char : option str;                 (* _whitespace_encoding_char (None when not configured) *)
   sc_collapse : bool;                      (* _collapse_whitespace_when_encoding *)
   sc_strop_handler : handler;              (* _stropping_failure_handler *)
-  sc_enc_handler : handler                 (* _encoding_failure_handler *)
+  sc_enc_handler : handler;                (* _encoding_failure_handler *)
+  sc_reverify : bool                       (* does strop pass its result through the final re-verification
+                                              (`return self._reverified(stropped, token_type_lower)`: the three dry-run
+                                              checks once more, RuntimeError if one fails) or just `return stropped`? *)
 }.
 
 Fixpoint lookup (m : list (str * list re)) (k : str) : option (list re) :=
@@ -214,6 +218,16 @@ Section Strop.
     | _ => Ok stropped
     end.
 
+  (* TokenEncoder._reverified (only in trees that have it; selected by sc_reverify): the final token must pass the
+     three dry-run checks; whichever fails, the exception is a RuntimeError *)
+  Definition dry_ok (r : tres) : bool := match r with TRuntimeError => false | _ => true end.
+
+  Definition reverified (ty stropped : str) : res :=
+    if dry_ok (do_for_type_and_all strop_by_pattern stropped ty true)
+       && dry_ok (do_for_type_and_all strop_by_keyword stropped ty true)
+       && dry_ok (do_for_type_and_all encode stropped ty true)
+    then Ok stropped else ErrRuntime.
+
   (* TokenEncoder.strop(token, token_type) *)
   Definition strop (token_type : str) (token : str) : res :=
     let ty := lower token_type in
@@ -228,7 +242,10 @@ Section Strop.
           | Ok stropped1 =>
             match checked (do_for_type_and_all strop_by_keyword stropped1 ty true) (sc_strop_handler cfg) stropped1 with
             | Ok stropped2 =>
-                checked (do_for_type_and_all encode stropped2 ty true) (sc_enc_handler cfg) stropped2
+                match checked (do_for_type_and_all encode stropped2 ty true) (sc_enc_handler cfg) stropped2 with
+                | Ok stropped3 => if sc_reverify cfg then reverified ty stropped3 else Ok stropped3
+                | e => e
+                end
             | e => e
             end
           | e => e
